@@ -367,12 +367,12 @@ FirstRestart(s) == IF \E p \in Active : s.rs[p]
                    THEN CHOOSE p \in Active : s.rs[p] /\ \A q \in Active : s.rs[q] => p <= q
                    ELSE nact
 
-\* BasicRestartingNonMPI.prepare_next_block for step S = p (in place on riar)
-PrepRiar(ri, p, s) ==
-    IF p >= nact THEN ri ELSE
+\* BasicRestartingNonMPI.prepare_next_block: all counters are computed from the values at the block end
+\* (new first step = first restarted step, its counter + 1; steps that were not restarted start from 0)
+PrepAllRiar(ri, p0, s) ==
     LET rf == IF FirstRestart(s) < nact THEN FirstRestart(s) ELSE nact - 1 IN
-    IF p < rf THEN [ri EXCEPT ![rf - p] = 0]
-    ELSE [ri EXCEPT ![p - rf] = IF s.rs[p] THEN ri[p] + 1 ELSE 0]
+    [p \in Slots |-> IF p >= nact THEN ri[p]
+                     ELSE IF p + rf < nact /\ s.rs[p + rf] THEN ri[p + rf] + 1 ELSE 0]
 
 \* proposal of a step in ticks (level.status.dt_new); 0 means "no proposal" (None)
 Proposal(d, p, s) == s.dtn[p]
@@ -397,10 +397,8 @@ RestartAtForSpread(s) == IF FirstRestart(s) < nact THEN FirstRestart(s) ELSE nac
 
 \* SpreadStepSizesBlockwiseNonMPI.prepare_next_block for S = p, in place on d
 \* tm is the `time` list as it is at that moment (slot 0 already overwritten)
-DtMaxNum(d, tm, s) ==
-    LET ra == RestartAtForSpread(s)
-        dall == IF ra = 0 THEN 0 ELSE d[ra]
-    IN TEND - tm[ra] - dall
+\* (Tend - start of the next block) ; the controller stored the start of the next block in time[0] before the call
+DtMaxNum(d, tm, s) == TEND - tm[0]
 
 \* min(prop, max(num/nact, DT0)) evaluated without division where possible
 SpreadValue(prop, num) ==
@@ -422,9 +420,6 @@ PrepDtExact(d, p, tm, s) ==
     LET sf   == SpreadFrom(d, s)
         prop == IF s.dtn[sf] = 0 THEN d[sf] ELSE Proposal(d, sf, s)
     IN ProposalExact(d, sf, s) /\ SpreadValueExact(prop, DtMaxNum(d, tm, s))
-
-RECURSIVE PrepAllRiar(_, _, _)
-PrepAllRiar(ri, p, s) == IF p >= NP THEN ri ELSE PrepAllRiar(PrepRiar(ri, p, s), p + 1, s)
 
 RECURSIVE PrepAllDt(_, _, _, _)
 PrepAllDt(d, p, tm, s) == IF p >= NP THEN d ELSE PrepAllDt(PrepDt(d, p, tm, s), p + 1, tm, s)
